@@ -275,6 +275,7 @@ class LoopRec:
     parent: Optional[int] = None
     target: Optional[T] = None
     term: Optional[T] = None     # the comprehension term (comp loops)
+    iter_path: Optional[T] = None   # syntactic path of the iterated expression (for loops)
 
 
 @dataclass
@@ -657,6 +658,8 @@ class _Frame:
     def _run_loop(self, kind, s, st, iter_term, body, orelse, target=None, test_node=None):
         lid = self.I.fresh()
         lr = LoopRec(lid, kind, iter_term, None, self.qualname, s.lineno, parent=self.loops[-1] if self.loops else None)
+        lr.iter_path = getattr(self, "_pending_iter_path", None) if kind == "for" else None
+        self._pending_iter_path = None
         self.rec.loops[lid] = lr
         carried = self._assigned_names(body)
         init = {}
@@ -704,6 +707,7 @@ class _Frame:
 
     def s_For(self, s, st):
         it = self.eval(s.iter, st)
+        self._pending_iter_path = self.path_of(s.iter, st)
         return self._run_loop("for", s, st, it, s.body, s.orelse, target=s.target)
 
     def s_While(self, s, st):
